@@ -38,6 +38,17 @@ META.update({
          "level_text": "Exploration: thousands (quick) to a million (thorough) clean-ups on hierarchies produced by random histories, each judged clause by clause (not against a second implementation of the algorithm).",
          "level_note": PAGING_NOTE},
 })
+TRAP_NOTE = ("Trusted: the instruction decoder / emulated register file of the trap monitor (trapemu.rs, forms listed in DESIGN.md Appendix A), "
+             "Linux delivering #GP/#UD as SIGSEGV/SIGILL with the faulting RIP and writable GPRs. The monitor observes the instruction and its operands, "
+             "not micro-architectural effects.")
+META.update({
+ "C17": {"engine": "vx-trap", "design_ref": "DESIGN.md §6 C17", "technique": "trap-and-emulate monitor of cli/sti/hlt with emulated IF (hook H1 overlay) + event-grammar checker over random nesting trees",
+         "level_text": "Exploration: thousands to millions of random nesting trees in both initial flag states and both build profiles; each run is judged on the emulated flag around every closure and on the exact trapped instruction sequence.",
+         "level_note": TRAP_NOTE},
+ "C18": {"engine": "vx-trap", "design_ref": "DESIGN.md §6 C18", "technique": "trap-and-emulate monitor of in/out (opcode, DX, AL/AX/EAX) with a PRNG device model; ports x widths x access kinds exhaustive",
+         "level_text": "Exploration, exhaustive in the port, width and access-kind dimensions (all 65536 x 3 x 3 with one value each); values are sampled.",
+         "level_note": TRAP_NOTE},
+})
 NOT_APPLICABLE = {}
 ENGINES = [
  {"name": "vx-pure", "path": "harness/src/props/c03.rs..c08.rs, harness/src/gen.rs", "serves_properties": ["C03", "C04", "C05", "C06", "C07", "C08"],
@@ -45,7 +56,9 @@ ENGINES = [
 ]
 ENGINES.append({"name": "vx-paging", "path": "harness/src/props/paging.rs, harness/src/{simphys,hwwalk,refmodel}.rs", "serves_properties": ["C01", "C02", "C09", "C10"],
   "kind_free_text": "real mapper code over simulated physical memory; reference model + raw-memory walker + byte diff + allocator log after every call; fault injection by state forking"})
-HOOK_COMMITS = []
+ENGINES.append({"name": "vx-trap", "path": "harness/src/trapemu.rs, harness/src/props/c17.rs, c18.rs", "serves_properties": ["C17", "C18"],
+  "kind_free_text": "SIGSEGV/SIGILL trap-and-emulate monitor: decodes the privileged instruction the crate really executed, logs operands, applies it to an emulated register file, resumes"})
+HOOK_COMMITS = ["fa1ff97", "dc6676e", "2bec2c6"]
 NOTES = ("Runtime monitoring and sanitizers. ./check <ID> rebuilds the harness crate (harness/, binary vx) against /repo's working tree in "
          "two profiles, runs sharded monitor processes, filters known findings (known_findings.json) and writes evidence/<ID>.json. "
          "Exit 0 held / 1 VIOLATION / 2 INCONCLUSIVE (machinery problem, never reported as violation).")
